@@ -3,3 +3,7 @@ import UF.Driver.Ops.GroupF
 import UF.Props.C13
 import UF.Props.C14
 import UF.Props.C19
+-- integration group J: C13/C14/C19 on the engine models
+import UF.Props.C13Engine
+import UF.Props.C14Engine
+import UF.Props.C19Engine
